@@ -105,6 +105,12 @@ TARGETS = [
     ("pams/simulator.py", "Simulator", "_update_time_on_market"),
     ("pams/simulator.py", "Simulator", "_update_times_on_markets"),
     ("pams/session.py", "Session", "setup"),
+    ("pams/fundamentals.py", "Fundamentals", "_generate_until"),
+    ("pams/fundamentals.py", "Fundamentals", "change_volatility"),
+    ("pams/fundamentals.py", "Fundamentals", "change_drift"),
+    ("pams/fundamentals.py", "Fundamentals", "set_correlation"),
+    ("pams/fundamentals.py", "Fundamentals", "remove_correlation"),
+    ("pams/fundamentals.py", "Fundamentals", "get_fundamental_price"),
     ("pams/utils/json_extends.py", None, "json_extends"),
     ("pams/utils/json_random.py", "JsonRandom", "_next_uniform"),
     ("pams/utils/json_random.py", "JsonRandom", "_next_normal"),
